@@ -299,6 +299,10 @@ OUTSIDE_MODEL = {
     "C03d": "comparator uses math.isclose: not an order-only predicate, the finite-model argument does not apply",
     "C03e": "executability decided on float tick levels: arithmetic on prices inside the predicate is outside the order-only model",
     "C16d": "refresh skipped when the recomputed mid equals the stored one: equality with stored state is not an atom of the refresh table",
+    "C01g": "comparator rebuilt on helpers that call math.isclose: not an order-only predicate (shared premise C02.R1)",
+    "C02f": "comparator rebuilt on key tuples with `placed_at or math.inf`: tuple slicing and truthiness of a number are outside the order-only model",
+    "C04f": "cancel turned into lazy deletion (flag only, purge when the order reaches the top): the removal discipline the rules decide is gone altogether",
+    "C15f": "hook selection memoised per (hook point, time) with invalidation in _add_event: a selection that reads a cache is not the modelled `hooks[None] ++ hooks[time]`",
 }
 
 # --------------------------------------------------------------------------- seeded patches
